@@ -15,6 +15,7 @@ import GluonModel.Proofs.MarshalFull
 import GluonModel.Proofs.MarshalTypes
 import GluonModel.Proofs.MarshalDe
 import GluonModel.Proofs.MarshalMap
+import GluonModel.Proofs.MarshalOrder
 
 namespace GluonModel.Props.C11
 open GluonModel.Marshal GluonModel.Marshal.Proofs
@@ -259,6 +260,47 @@ theorem rooted_nan_old_rule_fails :
 theorem rooted_float_old_rule_partial (b : Nat) (rooted : List GV) (h : isNaN64 b = false) :
     unrootFindsOld (.float b :: rooted) (.float b) = true := by
   simp [unrootFindsOld, objEqOld, f64Eq, h]
+
+/-! ## Records are read and written BY FIELD NAME (wave 2: the derive macros and reordered fields) -/
+
+/-- **A record is read by field name, whatever the order of its fields**: a Rust struct (or struct
+    variant) declaring the fields `fs`, read with the derived `Getable` from ANY gluon record `ws` with
+    distinct names that holds those fields — in any order, possibly among others — gets exactly the
+    declared fields' values, in the Rust declaration order. Nothing is taken by position. -/
+theorem get_by_name_order_independent (fs : List (String × TCode)) (vs ws : List (String × Val))
+    (hwt : WTf fs vs = true) (hd : nodupB (namesOf ws) = true) (hs : ∀ p ∈ vs, p ∈ ws) :
+    get (.struct fs) (.record (namesOf ws) (pushF ws)) = some (.struct vs) := by
+  simp [Marshal.get, tagOf, getFs_any_order ws hd fs vs hwt hs]
+
+/-- **Push in one declaration order, read in any other**: a struct pushed by a Rust type that declares
+    its fields in the order `ws` is read back correctly by a Rust type that declares the same fields in
+    the permuted order `vs` (both bound to the same gluon record type). -/
+theorem push_get_roundtrip_any_field_order (fs : List (String × TCode)) (vs ws : List (String × Val))
+    (hwt : WTf fs vs = true) (hd : nodupB (namesOf vs) = true) (hp : ws.Perm vs) :
+    get (.struct fs) (push (.struct ws)) = some (.struct vs) := by
+  have hd' : nodupB (namesOf ws) = true := nodupB_namesOf_perm vs ws hd hp.symm
+  simpa [push] using get_by_name_order_independent fs vs ws hwt hd' (fun p h => hp.mem_iff.mpr h)
+
+/-- the same inside an enum: a struct variant's fields are read by name from the inner record -/
+theorem variant_get_by_name_order_independent (fs : List (String × TCode)) (vs ws : List (String × Val))
+    (pre : List TCode) (name : String)
+    (hwt : WTf fs vs = true) (hd : nodupB (namesOf ws) = true) (hs : ∀ p ∈ vs, p ∈ ws) :
+    get (.enum name (pre ++ [.vstruct fs])) (.data pre.length [.record (namesOf ws) (pushF ws)])
+      = some (.var pre.length (.vstruct vs)) := by
+  have hv : ∀ (pre : List TCode) (g : GV), getVariant (pre ++ [.vstruct fs]) pre.length g
+      = getVariant [.vstruct fs] 0 g := by
+    intro pre g; induction pre with
+    | nil => rfl
+    | cons c pre ih => simpa [getVariant] using ih
+  simp [Marshal.get, tagOf, hv, getVariant, fieldsOf, getFs_any_order ws hd fs vs hwt hs]
+
+example : get (.struct [("a", .int .i64), ("b", .int .i64), ("c", .string)])
+    (.record ["c", "b", "a"] [.str "s", .int 9223372036854775807, .int (-9223372036854775808)])
+    = some (.struct [("a", .int .i64 (-9223372036854775808)), ("b", .int .i64 9223372036854775807),
+        ("c", .str "s")]) := by rfl
+example : WTf [("a", .int .i64), ("b", .int .i64)] [("a", .int .i64 1), ("b", .int .i64 2)] = true ∧
+    [("b", Val.int .i64 2), ("a", Val.int .i64 1)].Perm [("a", .int .i64 1), ("b", .int .i64 2)] :=
+  ⟨by decide, List.Perm.swap _ _ _⟩
 
 /-! ## Non-vacuity -/
 
